@@ -65,6 +65,13 @@ func (g *Gen) verifyFunc(fc *FuncContract) (vc *VC) {
 	g.bv = fc.ModeBV
 	g.curTop = fc.Key
 	vc = g.vc
+	// mutex self-deadlock / unlock-without-lock obligations only where the contract talks about locks
+	g.lockObls = false
+	for _, cl := range append(append(append([]*Clause{}, fc.Requires...), fc.Ensures...), fc.Invs...) {
+		if strings.Contains(cl.Src, "held(") {
+			g.lockObls = true
+		}
+	}
 	fn := g.resolveFuncKey(fc.Key)
 	if fn == nil || len(fn.Blocks) == 0 {
 		g.addObligation(&Obligation{Name: fc.Key + ".binding", Func: fc.Key, Kind: "binding", Props: fc.Props, Guard: "true", Goal: "false", Static: true,
@@ -167,7 +174,9 @@ func (g *Gen) verifyFunc(fc *FuncContract) (vc *VC) {
 			Pos: fmt.Sprintf("%s:%d", en.File, en.Line)})
 	}
 	// vacuity canary: the exit must be reachable under the assumptions
-	if exitG != "false" {
+	if fc.NoReturn {
+		// nothing to check: the function ends the process
+	} else if exitG != "false" {
 		g.addObligation(&Obligation{Name: fc.Key + ".canary.exit-reachable", Func: fc.Key, Kind: "canary", Guard: exitG, Goal: "false", Expect: "sat",
 			Src: "vacuity guard: assumptions and path conditions up to the function exit are satisfiable"})
 	} else if len(fr.panics) == 0 {
@@ -487,6 +496,12 @@ func (g *Gen) resolveFuncKey(key string) *ssa.Function {
 				for _, a := range c.Args {
 					if k, ok := a.(*ssa.Const); ok && k.Value != nil && k.Value.Kind() == constant.String && constant.StringVal(k.Value) == lit {
 						hasLit = true
+					}
+					// prefix + "literal"
+					if bo, ok := a.(*ssa.BinOp); ok {
+						if k, ok := bo.Y.(*ssa.Const); ok && k.Value != nil && k.Value.Kind() == constant.String && constant.StringVal(k.Value) == lit {
+							hasLit = true
+						}
 					}
 					if mc, ok := a.(*ssa.MakeClosure); ok {
 						clo, _ = mc.Fn.(*ssa.Function)
